@@ -137,6 +137,23 @@ func checkC07(c *hx.Checker) {
 			}
 		}
 	}
+	// extreme integers as axis / axes / target-shape entries: all of them are out of range and must be refused
+	for _, sh := range [][]int{{}, {2, 3}, {1, 2, 1}, {1}} {
+		data := ref.Distinct(ref.F32, sh)
+		bad := ref.Invalid("extreme integer")
+		for _, e := range extremeInts {
+			for _, rt := range []string{"op", "model"} {
+				add("Flatten", []hx.Attr{hx.AInt("axis", e)}, []*ref.T{data}, nil, bad, rt, nil, true, fmt.Sprintf("axis=%d", e), "extreme-int")
+				for _, ax := range [][]int64{{e}, {0, e}, {e, e}} {
+					add("Squeeze", nil, []*ref.T{data, ref.I64Vec(ax...)}, nil, bad, rt, nil, true, fmt.Sprint(ax), "extreme-int")
+					add("Unsqueeze", nil, []*ref.T{data, ref.I64Vec(ax...)}, nil, bad, rt, nil, true, fmt.Sprint(ax), "extreme-int")
+				}
+				for _, t := range [][]int64{{e}, {e, -1}, {-1, e}, {2, e}, {e, e}, {e, 0}} {
+					add("Reshape", nil, []*ref.T{data, ref.I64Vec(t...)}, nil, bad, rt, nil, true, fmt.Sprint(t), "extreme-int")
+				}
+			}
+		}
+	}
 	// larger shapes beyond the exhaustive box
 	for _, sh := range [][]int{{4, 5, 6}, {7, 1, 9}, {2, 3, 4, 5, 6}, {64}, {1, 128}} {
 		data := ref.Distinct(ref.F32, sh)
